@@ -1478,7 +1478,7 @@ class Interp:
                 continue
             steps += 1
             if steps > 4000:
-                raise RuntimeError("num: no fixpoint in %s" % body.path)
+                raise RuntimeError("num: no fixpoint in %s (loop-head visits %s)" % (body.path, sorted(visits.items())))
             succ, ex = self.transfer(fr, b, [s.copy() for s in ins])
             if ex is not None:
                 exits[b] = ex
@@ -1535,7 +1535,7 @@ class Interp:
                         continue
                 if s in heads:
                     visits[s] = visits.get(s, 0) + 1
-                    new = self.normalize_w(allst, jid, widen=visits[s] > 2)
+                    new = self.normalize_w(allst, jid, widen=visits[s] > 2, hard=visits[s] > 6)
                     tb = self.trip_bounds(fr, s, preds, edge_out)
                     for l_, ub_ in tb.items():
                         for st_ in new:
@@ -1699,9 +1699,9 @@ class Interp:
                 out[l] = ini + st_[0] * trips
         return out
 
-    def normalize_w(self, states, jid, widen):
+    def normalize_w(self, states, jid, widen, hard=False):
         states = [s for s in states if not s.dead]
-        if len(states) <= 1:
+        if len(states) <= 1 and not hard:
             return states
         groups = {}
         for s in states:
@@ -1718,8 +1718,37 @@ class Interp:
             r = self.join(g, j, widen_prev=prev if widen else None) if len(g) > 1 else g[0]
             if len(g) > 1:
                 self.tmpl_store[j] = self.last_tmpl
+            if hard:
+                r = self.hard_widen(self.hard_prev.get(j), r)
+                self.hard_prev[j] = r
             out.append(r)
         return out
+
+    def hard_widen(self, old, new):
+        """Classical widening of one state against the state the same partition had at the previous visit of the loop head
+        (used from the seventh visit on, when templates alone did not stabilise the head: a partition that holds a single
+        state is never joined, and bounds of symbols that are not redefined at the head are only hulled).  Keeps the old
+        state's constraints and bounds that still hold in the new state; a bound that moved goes to the type's range."""
+        if old is None or new.dead or old.dead or old.env != new.env:
+            return new
+        r = new.copy()
+        r.cons = set(c for c in old.cons if (c in new.cons) or new.entails(c))
+        live = set()
+        for v in new.env.values():
+            for l in _lins_of(v):
+                live.update(l.syms())
+        for c in new.cons | old.cons:
+            live.update(c.syms())
+        live |= set(new.lo) | set(new.hi) | set(old.lo) | set(old.hi)
+        r.lo, r.hi = {}, {}
+        for s_ in live:
+            if new.lb(s_) >= old.lb(s_) and old.lb(s_) > self.syms[s_][1]:
+                r.lo[s_] = old.lb(s_)
+            if new.ub(s_) <= old.ub(s_) and old.ub(s_) < self.syms[s_][2]:
+                r.hi[s_] = old.ub(s_)
+        r.mod = {k: v for k, v in new.mod.items() if old.mod.get(k) == v}
+        r.divq = {k: v for k, v in new.divq.items() if old.divq.get(k) == v}
+        return r
 
     # ------------------------------------------------------------------ transfer
     def transfer(self, fr, bidx, states):
@@ -2195,6 +2224,7 @@ class NumEngine(Interp, Engine):
     def __init__(self, facts, contracts, invariants=None, verbose=False):
         Engine.__init__(self, facts, contracts, invariants, verbose)
         self.tmpl_store = {}
+        self.hard_prev = {}
         self._loop_info = {}
         self._unrollable = {}
         self.exact_ranges = False
